@@ -379,6 +379,27 @@ def l1_conn(pid, tier, seed):
     return out
 
 
+def l1_keepalive(pid, tier, seed):
+    """exhaustive TLC run of the timed model KeepAlive.tla (ping interval restarted per connection, write latency,
+    bounded reads, keep-alive 0, Server Keep Alive changing between connections); KeepAlive.seed.cfg (interval not
+    restarted when a connection is established = seeded change c12) MUST violate PingOnTime.
+    spec/TraceKeepAlive.tla follows the same rules over every recorded trace."""
+    out = dict(name="L1 KeepAlive.tla", states=0, transitions=0, violations=0, runs=[], samples=[])
+    for cfg in ["KeepAlive.cfg"] + (["KeepAlive.thorough.cfg"] if tier == "thorough" else []):
+        r = run_model("KeepAlive.tla", cfg, ["KeepAlive.tla"], workers=8)
+        out["states"] += r["distinct"]; out["transitions"] += r["generated"]
+        out["runs"].append({k: r[k] for k in ("cfg", "generated", "distinct", "depth", "violated", "wall", "cached")})
+        for inv in r["violated"]:
+            out["violations"] += 1
+            log("VIOLATION property=%s replay=%s model=%s invariant=%s" % (pid, r["replay"], cfg, inv))
+    r = run_model("KeepAlive.tla", "KeepAlive.seed.cfg", ["KeepAlive.tla"], workers=8)
+    out["runs"].append({k: r[k] for k in ("cfg", "generated", "distinct", "depth", "violated", "wall", "cached")})
+    if not r["violated"]:
+        raise CheckError("model self-test: KeepAlive.seed.cfg (interval not restarted per connection) was NOT caught by the model invariants")
+    out["samples"].append(dict(model="KeepAlive.tla", note="keep-alive 0/1/2 (thorough 0..5) s, latency 0..1 (2), 16 (40) half-seconds"))
+    return out
+
+
 # ----------------------------------------------------------------------------- ASan pass over conformant families
 def asan_pass(families, sizes=(500, 6000)):
     """returns a stage running the given scenario families on the client built with ASan+UBSan: a sanitizer report, a crash
